@@ -1,6 +1,6 @@
 #include "hm_common.hpp"
 using namespace hm;
-namespace {
+namespace hx_hmlist {
 namespace xp = xenium::policy;
 template <class R, class C = std::less<int>>
 using Set = xenium::harris_michael_list_based_set<int, xp::reclaimer<R>, xp::compare<C>>;
